@@ -148,6 +148,9 @@ def rand_knobs(rng):
         kn['urandom'] = 'zeros'      # legal, if unlikely, outcomes of the system's randomness
     elif r < 0.08:
         kn['urandom'] = 'ones'
+    if rng.random() < 0.25:
+        # a send buffer that takes only so much per send() call: larger writes are short (the remainder is the caller's to send)
+        kn['sndbuf'] = rng.choice([1, 64, 1000, 4096, 16384])
     return kn
 
 
